@@ -299,6 +299,25 @@ Proof.
     rewrite E, firstn_all. apply replay_all; [exact Hwf|]. apply log_bytes_len_ge.
 Qed.
 
+Lemma complete_lt : forall es j k, (k < bytes_upto es j)%nat -> (complete es k < j)%nat.
+Proof.
+  induction es as [|e es IH]; intros j k Hk; destruct j; cbn [complete bytes_upto] in *; try lia.
+  destruct (Nat.leb_spec (length (frame e)) k); [|lia].
+  apply -> Nat.succ_lt_mono. apply IH. lia.
+Qed.
+
+Lemma complete_all es k : (length (log_bytes es) <= k)%nat -> complete es k = length es.
+Proof.
+  intros H. pose proof (complete_ge es (length es) k (le_n _)) as G.
+  rewrite bytes_upto_log, firstn_all in G. pose proof (complete_le es k). lia.
+Qed.
+
+Lemma replay_file_clean es : Forall wf es -> replay_file (log_bytes es) = Ok es.
+Proof.
+  intros Hwf. pose proof (replay_file_prefix es (length (log_bytes es)) Hwf) as H.
+  rewrite firstn_all in H. rewrite H. rewrite complete_all by lia. rewrite firstn_all. reflexivity.
+Qed.
+
 (* every acknowledged (= completely written and synced) record survives, in order: if the crash
    point is at or after the end of record j, records 1..j are the head of the recovered list *)
 Corollary acknowledged_survive : forall es k j, Forall wf es ->
